@@ -39,6 +39,7 @@ def work(item):
     acc = netcheck.Acc(f"{topo.name}:{tag}")
     prover = discharge.Prover(timeout_ms=timeout_ms, seed=seed)
     vals = numrun.exact_params(topo, seed)
+    mainstream = has_main(topo)
     declare = names_of(topo, kinds)
     if reverse:
         declare = list(reversed(declare))
@@ -75,6 +76,10 @@ def work(item):
             acc.exec_violation(PID, topo, f"casadi[{tag}]", "array", f"entry {slot} missing with symbolic parameters", extra={"numeric": numA})
             continue
         ta = z3.substitute(A.slot[slot].t, *subs) if subs else A.slot[slot].t
+        if mainstream:
+            # with numbers for a, v_free, rho_crit CasADi folds V(rho_crit) to a float constant; fold the same applications
+            # (now with constant arguments) to the float value of the real function -- the same libm exp/pow
+            ta = discharge.fold_ufs(ta)
 
         def on_sat(model, slot=slot):
             env = netcheck.model_env(topo, model, rng, vals)
@@ -117,7 +122,7 @@ def main():
     if args.replay:
         sys.exit(replay(harness.load_replay(args.replay)))
     t0 = time.time()
-    K = [t for t in families.curated() if not has_main(t)]
+    K = [t for t in families.curated() if not has_main(t)] + [t for t in families.curated() if has_main(t)]
     timeout = 20000
     items = []
     subsets_q = [()] + [(k,) for k in KINDS] + [KINDS, ("rhocrit", "a", "T"), ("vfree", "tau", "delta", "C")]
@@ -144,10 +149,10 @@ def main():
         "program = (topology, SX|MX, compactness level, subset of parameter kinds made symbolic, declared order natural|reversed -- in the reversed programs the model "
         "parameters are additionally forwarded as **other_parameters, the second documented route, and all symbols of one kind share one display name); one query per result entry: "
         "IR with symbolic parameters, numbers substituted == IR compiled with plain numbers",
-        {"bounds": {"family": "K without mainstream origins (15)" + (" + E(3,4); all 512 subsets on the test network" if args.thorough else "; 13 subsets on 3 topologies, 4 rotating subsets on the others"),
+        {"bounds": {"family": "K (20 curated, mainstream origins included)" + (" + E(3,4); all 512 subsets on the test network" if args.thorough else "; 13 subsets on 3 topologies, 4 rotating subsets on the others"),
                     "parameter_values": "dyadic / power-of-two divisors so that float constant folding is exact"},
          "functions_encoded": ["Engine.to_function(parameters=...) / _add_parameters_to_inputs IR", "element layer with symbolic vs numeric parameters (CasADi engine)"]})
-    assumptions = ["mainstream-origin topologies excluded: with numeric a, v_free, rho_crit their V_crit is folded to a transcendental float constant (C03 sym mode and C01 cover them with symbols)",
+    assumptions = ["mainstream-origin topologies: with numeric a, v_free, rho_crit CasADi folds V(rho_crit) to a float constant; the substituted symbolic side folds the same constant-argument exp/pow applications with the same libm (float-exact comparison)",
                    "exact real arithmetic; parameter values exactly representable", "lanes always numeric here"]
     harness.finish(args, "translation_validation", cov, assumptions, viol, inc, t0)
 
